@@ -211,7 +211,7 @@ FAMILIES["C16"] = dict(
 
 
 FAMILIES["C17"] = dict(
-    g=[G("MC_C17", "MC_C17_quick.cfg", "MC_C17_thorough.cfg")],
+    g=[G("MC_C17", "MC_C17_quick.cfg", "MC_C17_thorough.cfg"), G("MC_C17R", "MC_C17R.cfg", "MC_C17R.cfg")],
     v=[dict(profile="rx", n={"quick": 6000, "thorough": 120000})],
     level_text=("The regular-expression engine is an environment of the specification: each recorded step carries, for every regex literal of the program and every string it can be applied to, the match list the engine reported (checked for well-formedness by JRegex!WellFormedMatches). "
                 "Everything the port builds on it is specified in TLA+ (JRegex/JEval): match objects and the `next` chain, $match with limit, $contains, $split, $replace with the $N/$0/$$ template rule and with a replacement function, limits, context defaulting; the scanner and grammar specifications cover the literal syntax (\\/, bracket depth, flags). "
